@@ -662,6 +662,10 @@ pub fn run(tier: &str) -> i32 {
     ev.distinct_nontrivial = c_nontrivial.len() as u64;
     ev.rule = format!("(a) {} sequential writes in histories of 1-6 plain / versioned writes (version below, at, above current) on 2 keys of a newer database with a watcher; (b) {} token-passing schedules of two writers (1-3 writes each, plain and versioned 0-3) on one key with a watcher, every other one with a third session reading the key; (c) {} simulated-cluster runs where two sessions on the primary write one key sequentially or concurrently (yield point between creating a change and applying it) and 1-2 secondaries replay the primary's order; (d) free-running threads: {} writes by two sessions on one watched key while a third session read it {} times and the watcher heard {} notifications; distinct_nontrivial = distinct schedules of (b) in which the two writers' operations overlap", seq_steps, c_runs, r_runs, f_writes, f_reads, f_heard);
     ev.samples = c_samples;
+    // watchers are notified exactly when the stored value changes - also when the key's subscriber list holds entries of
+    // sessions that are gone (the part is shared with C03, here on a newer database with a stale versioned write)
+    let leftover = crate::c03::leftover_subscriptions_part(&v, "newer-watch", "newer");
+    ev.set("subscriptions_left_behind_by_departed_sessions", json!({"cases": leftover.0, "notifications_judged": leftover.1}));
     ev.set("sequential_version_classes", json!(seq_classes.iter().cloned().collect::<Vec<_>>()));
     ev.set("concurrent_distinct_schedules", json!(c_distinct.len()));
     ev.set("concurrent_stale_writes_that_lost_judged_by_issue_order", json!(CHECKED_DROPS.load(std::sync::atomic::Ordering::Relaxed)));
